@@ -400,6 +400,7 @@ def _buf(o, attr):
 def _sec_interface(ctx, mo, reg, fam, rng, n_pose, n_extra=3):
     """every registered score can be evaluated through score(x) / score_translation / score_angles"""
     data0, coords, w0 = _scene(rng)
+    ref_c = {}
     for name in reg:
         cases = [("full", "C", None), ("none", "C", None), ("full", "F", None)]
         # the caller's arrays in other layouts / dtypes / flags, other absolute intensities, options given or left out
@@ -432,14 +433,25 @@ def _sec_interface(ctx, mo, reg, fam, rng, n_pose, n_extra=3):
                 with _quiet():
                     o = _make_any(mo, name, fam[name], data, coords, w, mask, layout=layout, P=P, **kw)
                 vals = []
+                if layout == "F" and (name, mask) in ref_c:
+                    # the same values in Fortran order: the same poses must score the same
+                    xs_c, vals_c = ref_c[(name, mask)]
+                    vals_f = [_val(o.score(x))[0] for x in xs_c]
+                    okl = all((a != a and b != b) or abs(a - b) <= 1e-4 * max(1.0, abs(a)) for a, b in zip(vals_c, vals_f))
+                    ctx.spec("score(x) does not depend on the memory layout of the template", inp, okl,
+                             {"C": vals_c[:4], "F": vals_f[:4]}, key=f"layout:{name}")
+                xs_here = []
                 for _ in range(n_pose):
                     x = _rand_pose(rng, str(rng.choice(POSE_KINDS)), data.shape[0])
+                    xs_here.append(x)
                     if P is not None:      # the pose as tuple / list / float64 or float32 array, positionally or as `x=`
                         x, ck = _container(rng, x)
                         ctx.count("interface:pose-container=" + ck)
                         vals.append(_val(o.score(x=x) if rng.random() < 0.5 else o.score(x))[0])
                     else:
                         vals.append(_val(o.score(x))[0])
+                if P is None and layout == "C":
+                    ref_c[(name, mask)] = (xs_here, list(vals))
                 tr = tuple(float(v) for v in rng.normal(0, 1, 3))
                 an = tuple(float(v) for v in rng.normal(0, 10, 3))
                 pz = ctx.driver.call("c17.poseOf", x=[1, 2, 3])
